@@ -98,7 +98,66 @@ fn gen_payload(rng: &mut Rng, big_ok: bool) -> Vec<u8> {
     gen::payload(rng, len, style)
 }
 
+/// Streams whose segments end right around a power-of-two offset (4 KiB,
+/// 64 KiB, the 512 KiB default block): internal windows and block sizes are
+/// powers of two, so delimiters straddling such offsets are the hostile case.
+pub fn gen_boundary_stream(rng: &mut Rng) -> Vec<u8> {
+    let mut s = Vec::new();
+    let boundary = *rng.pick(&[4096usize, 65_536, 65_536, 524_288, 8192, 131_072]);
+    let lead = rng.range(0, 3);
+    for _ in 0..lead {
+        let p = gen_payload(rng, false);
+        s.extend_from_slice(&hcobs_ref::encode(&p, 252, 64008));
+        s.extend_from_slice(&[0xFE, 0xFD]);
+    }
+    // a segment (valid record or garbage) sized so that the following
+    // delimiter starts within +-3 bytes of the boundary, measured from the
+    // stream start or from the segment start
+    let from_start = rng.chance(1, 2);
+    let base = if from_start { s.len() } else { 0 };
+    let target = (boundary + rng.range(0, 6)).saturating_sub(3);
+    let seg_len = target.saturating_sub(base).max(1);
+    if rng.chance(1, 2) && seg_len > 600 {
+        // a valid record of exactly seg_len encoded bytes (no FE FD inside the payload)
+        let mut payload_len = seg_len.saturating_sub(1 + 2 * (seg_len / 64008 + 1));
+        let mut tries = 0;
+        loop {
+            let payload = gen::payload(rng, payload_len, gen::Style::NoFe);
+            let e = hcobs_ref::encode(&payload, 252, 64008);
+            tries += 1;
+            // (some lengths are unreachable when a chunk is exactly full: settle after a few tries)
+            if e.len() == seg_len || payload_len == 0 || tries > 6 {
+                s.extend_from_slice(&e);
+                break;
+            }
+            if e.len() > seg_len {
+                payload_len -= e.len() - seg_len;
+            } else {
+                payload_len += seg_len - e.len();
+            }
+        }
+    } else {
+        s.extend_from_slice(&no_stuff_garbage(rng, seg_len));
+        let n = s.len();
+        if s[n - 1] == 0xFE {
+            s[n - 1] = 0x41;
+        }
+    }
+    s.extend_from_slice(&[0xFE, 0xFD]);
+    for _ in 0..rng.range(1, 3) {
+        let p = gen_payload(rng, false);
+        s.extend_from_slice(&hcobs_ref::encode(&p, 252, 64008));
+        if rng.chance(2, 3) {
+            s.extend_from_slice(&[0xFE, 0xFD]);
+        }
+    }
+    s
+}
+
 pub fn gen_stream(rng: &mut Rng, big_ok: bool) -> Vec<u8> {
+    if big_ok && rng.chance(1, 2) {
+        return gen_boundary_stream(rng);
+    }
     let mut s = Vec::new();
     let items = rng.range(0, 10);
     if rng.chance(1, 12) {
@@ -175,8 +234,21 @@ pub fn gen_log(rng: &mut Rng, records: usize) -> Vec<u8> {
 const BLOCKS: [Option<usize>; 12] = [Some(0), Some(1), Some(2), Some(3), Some(4), Some(5), Some(8), Some(64), Some(4096), None, Some(2), Some(7)];
 
 fn gen_reader_script(rng: &mut Rng, stream_len: usize) -> Vec<Step> {
-    match rng.below(5) {
+    match rng.below(6) {
         0 => Vec::new(), // full reads
+        5 => {
+            // EINTR storms: long runs of interrupted calls between deliveries
+            let mut v = Vec::new();
+            for _ in 0..rng.range(1, 12) {
+                for _ in 0..rng.range(0, 6) {
+                    v.push(if rng.chance(1, 2) { Step::Deliver(rng.range(1, 9)) } else { Step::Fill });
+                }
+                for _ in 0..rng.range(1, 300) {
+                    v.push(Step::Interrupted);
+                }
+            }
+            v
+        }
         1 => {
             // all single bytes with EINTR sprinkled in
             let mut v = Vec::new();
@@ -654,7 +726,12 @@ pub fn run(ctx: &mut Ctx) {
             let mut rng = Rng::for_case(ctx.args.seed, "stream-chunker", r);
             let big_ok = !miri && rng.chance(1, 20);
             let stream = gen_stream(&mut rng, big_ok);
-            let block = BLOCKS[rng.usize_below(BLOCKS.len())].unwrap_or(hcobs::DEFAULT_BLOCK_SIZE);
+            let block = if stream.len() > 20_000 {
+                // long streams: large blocks only (tiny blocks would take millions of pumps)
+                *rng.pick(&[4096usize, 65_536, 70_000, 100_000, 131_072, hcobs::DEFAULT_BLOCK_SIZE, hcobs::DEFAULT_BLOCK_SIZE])
+            } else {
+                BLOCKS[rng.usize_below(BLOCKS.len())].unwrap_or(hcobs::DEFAULT_BLOCK_SIZE)
+            };
             let script = gen_reader_script(&mut rng, stream.len());
             let arena_mode = *rng.pick(&[ArenaMode::Fresh, ArenaMode::NearlyFull, ArenaMode::FlushBetween, ArenaMode::SwapBetween]);
             let seed = rng.next_u64();
@@ -693,7 +770,11 @@ pub fn run(ctx: &mut Ctx) {
     index = index.max(1 << 32);
 
     let do_reader_case = |ctx: &mut Ctx, kind: &str, idx: u64, stream: &[u8], rng: &mut Rng| {
-        let block = BLOCKS[rng.usize_below(BLOCKS.len())];
+        let block = if stream.len() > 20_000 {
+            *rng.pick(&[Some(4096usize), Some(65_536), Some(70_000), Some(100_000), Some(131_072), None, None])
+        } else {
+            BLOCKS[rng.usize_below(BLOCKS.len())]
+        };
         let script = gen_reader_script(rng, stream.len());
         let judge = gen_judge(rng, stream);
         let clone_midway = rng.chance(1, 5);
